@@ -328,6 +328,12 @@ func (cmd *mainCmd) Run(args []string) error {
 				continue
 			}
 
+		} else if _, err := parser.ParseFile(token.NewFileSet(), filename, bs, parser.AllErrors); err != nil {
+			// imports.Process would have rejected output that is not valid
+			// Go. Without it, check that ourselves rather than emit it.
+			log.Printf("%s: failed: %v", filename, err)
+			errors = append(errors, fmt.Errorf("rewritten %q is not valid Go: %w", filename, err))
+			continue
 		}
 
 		switch {
